@@ -55,9 +55,9 @@ def super_signature(B, algo, mn, nopt, sol=None):
     )
 
 
-def random_super_case(rng, algo, max_obj, max_sp, max_fam, coherent_only=True, consistent_p=0.9, root_order_p=0.0, cost=None, min_obj=1):
+def random_super_case(rng, algo, max_obj, max_sp, max_fam, coherent_only=True, consistent_p=0.9, root_order_p=0.0, cost=None, min_obj=1, min_sp=1):
     ordered = SC.kind_of(algo) == "ordered"
-    Gn, Sn, lm = gen.random_input(rng, max_obj, max_sp, min_obj=min_obj)
+    Gn, Sn, lm = gen.random_input(rng, max_obj, max_sp, min_obj=min_obj, min_sp=min_sp)
     case = {"kind": "super", "algo": algo, "G": Gn, "S": Sn, "leafmap": lm,
             "costs": cost or gen.random_cost(rng, plain=False, coherent_only=coherent_only),
             "syn": gen.random_syntenies(rng, list(lm), max_fam, ordered=ordered, consistent_p=consistent_p if ordered else 1.0)}
